@@ -13,6 +13,19 @@ C['C04']=dict(engine="xplore", design="DESIGN.md §6 C04",
   technique="explicit-state model checking of message histories on the real collector: all histories to depth 3/4 plus BFS to closure of the template-table state graph, against a tmplstore reference model",
   text="All histories over a 40-message alphabet (2 domains x 2 ids x {3 templates, 4 kinds of bad template, 3 data bodies}) up to depth 3 (thorough 4) run on the real collector in lock-step with the reference store; then a BFS de-duplicated on the collector's private template table closes the reachable state graph (256/625 states), so every transition out of every reachable table is checked: the property holds for histories of any length over this alphabet.",
   note="Trusted: reference model, the snapshot hook (read-only). Alphabet-bounded: 2 domains, 2 ids, 3 template shapes.")
+
+C['C05']=dict(engine="xplore", design="DESIGN.md §6 C05",
+  technique="bounded-exhaustive enumeration of record/export/reset histories on the real AggregationProcess under a virtual clock, compared field-by-field with an arithmetic reference model after every operation",
+  text="All histories up to depth 4 (thorough 5, plus a de-duplicated BFS) over 27 operations - records for an inter-node pair and two single-stream flows with two end-time steps and three counter increments (incl. 2^40), active export with reset, reset via ForAllRecordsDo, inactive expiry - run on the real code (rewritten only so that time.Now is virtual); after every operation every statistic, per-node, end-time and throughput field of every held record and every exported record equals the model.",
+  note="Trusted: aggmodel equations (DESIGN Appendix B.1), verifgen rewrite (time->vtime only matters here). Inputs respect the contract in the property's quantifier; cross-node end-time ties are excluded; where the statement leaves the common total ambiguous every reading is accepted.")
+C['C06']=dict(engine="xplore", design="DESIGN.md §6 C06",
+  technique="explicit-state model checking of {record, advance clock, expiry scan with failing callbacks} histories on the real AggregationProcess under an exact virtual clock: all histories to a depth bound plus BFS to closure over the heap/map snapshot",
+  text="Every history up to depth 5 (thorough 7) over 2-3 flow keys, clock steps 1/2/4/6 against timeouts 4/6 (so deadline == now is reached) and scans whose callback fails on every subset of keys; after every operation the map/heap snapshot must be consistent (no held flow without a queue entry, no entry without a flow, indices, heap order), callbacks must fire for exactly the due flows in deadline order, and the advertised next expiry must match. A BFS de-duplicated on the heap layout with relative deadlines closes the state graph for 2 keys (all histories of any length over the alphabet).",
+  note="Trusted: expiry model (DESIGN Appendix B.2), snapshot hook. A deadline exactly equal to the scan time may fire or not. 3-key graph explored to a depth bound only.")
+C['C07']=dict(engine="xplore", design="DESIGN.md §6 C07",
+  technique="explicit-state model checking of arrival-order/action/scan histories on the real AggregationProcess under a virtual clock, against a correlation reference model; BFS to closure",
+  text="Every history up to depth 4 (thorough 5) over records of one flow key with every flow type, 6 (thorough: all 16) egress/ingress action pairs and either reporting node, clock steps and scans, for MaxRetries 1 and 2: ready/filled flags, retry counter, deadlines and every correlated field of the merged record are compared with the model after each step, and no callback may ever see an unready record. BFS on the snapshot closes the graph (269 states for MaxRetries=1).",
+  note="Trusted: correlation model (DESIGN Appendix B.3). A record that shows the flow needs no correlation makes a held flow ready (this is the reading under which the repaired defect was a defect).")
 checks=[]
 for pid in sorted(C):
     c=C[pid]
